@@ -272,6 +272,52 @@ theorem tie_beginBlk : beginBlk =
      .ifc "" "err != nil" (.other "return nil, err" .done) .done <|
      .other "return txSession{ Tx: tx, }, nil" .done) := by decide
 
+/-- **Every statement method of the transaction's session hands the caller's context, the session's OWN
+transaction `t.Tx` and the caller's query / destination / arguments, unchanged and in order, to database/sql**
+(`exec`, `query`, `Tx.PrepareContext`) — for all contexts `c` and values `v q a`; the context-less methods call
+their `…Ctx` twin with `context.Background()` and everything else unchanged.  A statement made with another
+context, on another handle, or with swapped arguments breaks this. -/
+theorem tie_txSession_forwarding_sem (c v q a : Nat) :
+    evalFwd fwdTxExecCtx [V.ctx c, V.val q, V.val a] = [V.ctx c, V.tx, V.val q, V.val a] ∧
+    evalFwd fwdTxPrepareCtx [V.ctx c, V.val q] = [V.ctx c, V.val q] ∧
+    (∀ h ∈ [fwdTxQueryRowCtx, fwdTxQueryRowPartialCtx, fwdTxQueryRowsCtx, fwdTxQueryRowsPartialCtx],
+      h.callee = "query" ∧
+      evalFwd h [V.ctx c, V.val v, V.val q, V.val a] = [V.ctx c, V.tx, V.unknown, V.val q, V.val a]) ∧
+    evalFwd fwdTxExec [V.val q, V.val a] = [V.bgCtx, V.val q, V.val a] ∧
+    evalFwd fwdTxPrepare [V.val q] = [V.bgCtx, V.val q] ∧
+    (∀ h ∈ [fwdTxQueryRow, fwdTxQueryRowPartial, fwdTxQueryRows, fwdTxQueryRowsPartial],
+      evalFwd h [V.val v, V.val q, V.val a] = [V.bgCtx, V.val v, V.val q, V.val a]) ∧
+    [fwdTxExecCtx.callee, fwdTxPrepareCtx.callee, fwdTxExec.callee, fwdTxPrepare.callee, fwdTxQueryRow.callee,
+      fwdTxQueryRowPartial.callee, fwdTxQueryRows.callee, fwdTxQueryRowsPartial.callee] =
+      ["exec", "t.Tx.PrepareContext", "t.ExecCtx", "t.PrepareCtx", "t.QueryRowCtx", "t.QueryRowPartialCtx",
+       "t.QueryRowsCtx", "t.QueryRowsPartialCtx"] ∧
+    -- the scanner each query method passes: strict for QueryRow[s], partial for the …Partial twins
+    [fwdTxQueryRowCtx.args.getD 2 .thunk, fwdTxQueryRowPartialCtx.args.getD 2 .thunk,
+      fwdTxQueryRowsCtx.args.getD 2 .thunk, fwdTxQueryRowsPartialCtx.args.getD 2 .thunk] =
+      [.other "func(rows *sql.Rows) error { return unmarshalRow(v, rows, true) }",
+       .other "func(rows *sql.Rows) error { return unmarshalRow(v, rows, false) }",
+       .other "func(rows *sql.Rows) error { return unmarshalRows(v, rows, true) }",
+       .other "func(rows *sql.Rows) error { return unmarshalRows(v, rows, false) }"] := by
+  refine ⟨?_, ?_, ?_, ?_, ?_, ?_, by decide, by decide⟩ <;>
+    simp [evalFwd, evalArg, fwdTxExecCtx, fwdTxPrepareCtx, fwdTxQueryRowCtx, fwdTxQueryRowPartialCtx,
+      fwdTxQueryRowsCtx, fwdTxQueryRowsPartialCtx, fwdTxExec, fwdTxPrepare, fwdTxQueryRow, fwdTxQueryRowPartial,
+      fwdTxQueryRows, fwdTxQueryRowsPartial, List.getD]
+
+/-- **Semantic tie of `begin`.**  Its control-flow term, read from the source now and run under `runBegin`, is
+exactly what the semantics of `transactOnConn` assumes of `tx, err = b(conn)`: the same driver calls (ONE
+`db.Begin()` with database/sql's retried attempts inside), the same error, and a transaction exactly when one was
+opened — for every fault plan.  A second Begin after a failed one (mutation M10), a swallowed error, a transaction
+handed back together with an error break it. -/
+theorem tie_begin_sem (f : Faults) :
+    (runBegin f beginBlk {}).stuck = false ∧ (runBegin f beginBlk {}).returned = true ∧
+    (runBegin f beginBlk {}).log = (assign ⟨f, [], .ret .nil⟩ {} (.call "b(conn)")).log ∧
+    (runBegin f beginBlk {}).err = (assign ⟨f, [], .ret .nil⟩ {} (.call "b(conn)")).err ∧
+    (runBegin f beginBlk {}).tx = f.opens ∧
+    ((runBegin f beginBlk {}).tx = true ↔ (runBegin f beginBlk {}).err = none) := by
+  obtain ⟨bg, cm, rb, bc, cp, rp, cc, rc⟩ := f
+  cases hg : Faults.givesUp ⟨bg, cm, rb, bc, cp, rp, cc, rc⟩ <;> cases bg <;>
+    simp [beginBlk, runBegin, assign, hg, Faults.opens, Err.of]
+
 /-- the statement methods a body uses inside the transaction all go to the transaction's own `*sql.Tx` with the
 context they were given (ctx-less ones: `context.Background()`); a Session built from a raw Tx
 (`NewSessionFromTx`) is the same `txSession`; `ErrNotFound` is `sql.ErrNoRows` in both packages -/
